@@ -148,8 +148,8 @@ def run(ctx):
     if r[0] == "obj":
         okb, fields, why = sm.message_built(W, dev, r)
         d = {f[0]: f[1] for f in fields}
-        mi = W.obj_init(d.get("MINT")) if d.get("MINT", ("x",))[0] == "obj" else d.get("MINT")
-        ma = W.obj_init(d.get("MAXT")) if d.get("MAXT", ("x",))[0] == "obj" else d.get("MAXT")
+        mi = W.frozen_init(d.get("MINT")) if d.get("MINT", ("x",))[0] == "obj" else d.get("MINT")
+        ma = W.frozen_init(d.get("MAXT")) if d.get("MAXT", ("x",))[0] == "obj" else d.get("MAXT")
         okw = okb and mi == ("repeat", ("int", 0), 8) and ma == ("repeat", ("int", 255), 8) and signer_pubkey(W, d.get("PUBK")) is not None
         det = "PUBK=%s MINT=%s MAXT=%s" % (fmt(d.get("PUBK")), fmt(mi), fmt(ma))
     ctx.check("certificate", "delegation-window-contains-every-midpoint", okw, "DELE = {PUBK: online public key, MINT: 0, MAXT: 2^64-1}",
